@@ -21,9 +21,10 @@ DECIDES = ('(WARN) every generate_evaluation_code of the DivNode family calls ge
            '(CDIV) every computed cdivision is true when the scoped directive is on and false for signed integer types when it is off; '
            '(SCOPED) all directive reads of the family go through a parameter (env.directives / code.globalstate.directives) with keys Options knows, never through Options\' defaults; '
            '(HELPER) the emitted __Pyx_div_<T>/__Pyx_mod_<T> calls match a CMath.c section the same class loads: name key filled by UtilityCode.specialize from the same type expression, '
-           'same arity, every %(key)s of the section provided; (SEL) the helper call is emitted only when cdivision is false and the plain C operator only when cdivision or truedivision is set; '
+           'same arity, every %(key)s of the section provided; (ADJ) every floor-adjustment predicate of the helpers (CMath.c, Builtins.c divmod, Optimize.c) equals `remainder != 0 and sign(remainder) != sign(divisor)` '
+           'on the complete sign domain, enclosing `if (remainder)` guards included; (DSCOPE) a transform that analyses an arithmetic node it built installs the block-level directives first; (SEL) the helper call is emitted only when cdivision is false and the plain C operator only when cdivision or truedivision is set; '
            '(PIN) every DivNode/ModNode synthesised outside the parser with a constant operator pins cdivision; (SIB1) the Optimize.c copies equal DivInt/ModInt.')
-NOT_DECIDED = ('the adjustment formulas of DivInt/ModInt/ModFloat themselves, the MIN / -1 overflow guard (C36/C04), float division, and the C semantics of '
+NOT_DECIDED = ('how the adjustment predicate is combined with quotient and remainder (q - adapt, r + adapt*b), the MIN / -1 overflow guard (C36/C04), float division, and the C semantics of '
                'the chosen operators; whether the path conditions of use_utility_code and of the emitted call coincide exactly.')
 ASSUMPTIONS = ['code.globalstate.directives is the scoped directive set during code generation (CompilerDirectivesNode swaps it around its body)']
 EXEMPT = {}
@@ -551,8 +552,9 @@ def run(ctx):
     rules.append(rule_pin(ctx, fam_names))
     # ---------------------------------------------------------------- SIB
     rules.append(P.rule_sib(ctx, 'C03-SIB'))
-    from ..rules import dscope
+    from ..rules import dscope, flooradj
     rules.append(dscope.rule_dscope(ctx))
+    rules.append(flooradj.rule_adj(ctx))
     return rules
 
 
